@@ -24,7 +24,8 @@ META = dict(
                'update; E() and deltaE_trial() agree (the early break at n >= Nenergy is sound for ascending rows, with a '
                'counterexample for unsorted rows); reference transitions = finite entries of the compiled ones; MCmoves = '
                'left fold of the single-move Metropolis rule and every batch refines the reference sampler driven move by '
-               'move. Both implementations and both models are run on the same histories over tables of real samplers.',
+               'move; by induction any history of start/update/MCmoves within the documented preconditions keeps the '
+               'compiled sampler a faithful representation of the reference one (history_refines). Both implementations and both models are run on the same histories over tables of real samplers.',
     level_note='Trusted: Lean kernel + standard axioms; table export / text protocol; numba is trusted to compile the Python '
                'text of the jitclass with Python semantics on int64/float64 (no overflow: counts <= number of sites). '
                'Modelled not verified: numpy slice assignments in MonteCarloSampler_param, float accumulation (exact here: '
@@ -37,7 +38,7 @@ META = dict(
               'Onsager.C35.break_unsound_unsorted', 'Onsager.C35.jupdate_inv', 'Onsager.C35.scanLoop_inv',
               'Onsager.C35.param_refines', 'Onsager.C35.jstart_refines', 'Onsager.C35.update_refines',
               'Onsager.C35.transitions_eq', 'Onsager.C35.MCmoves_eq_fold', 'Onsager.C35.mcStep_refines',
-              'Onsager.C35.MCmoves_refines'],
+              'Onsager.C35.MCmoves_refines', 'Onsager.C35.history_refines', 'Onsager.C35.history_observables'],
     tie_theorems=[],
     rule='a case = one history on one real sampler pair (reference + compiled): exhaustive cases are (occupation, '
          'admissible move) pairs on tiny supercells through both construction paths (param of a started sampler / '
@@ -225,17 +226,20 @@ def _thresholds(rng, n, dEs_hint):
     return out
 
 
-def op_mc(ctx, rec, p, hist, rng, nmoves):
+def op_mc(ctx, rec, p, hist, rng, nmoves, given=None):
     """a batch of MCmoves on the compiled sampler == the Metropolis rule applied move by move (compiled copy and reference)"""
     b, J, MC = p.b, p.J, p.MC
     if J.Nocc == 0 or J.Nunocc == 0: return True
-    oc = [rng.randrange(J.Nunocc) for _ in range(nmoves)]
-    uc = [rng.randrange(J.Nocc) for _ in range(nmoves)]
-    hint = []
-    for _ in range(3):
-        a = int(J.unoccupied_set[rng.randrange(J.Nunocc)]); c = int(J.occupied_set[rng.randrange(J.Nocc)])
-        hint.append(float(J.deltaE_trial(a, c)))
-    kt = _thresholds(rng, nmoves, hint)
+    if given:
+        oc, uc, kt = given
+    else:
+        oc = [rng.randrange(J.Nunocc) for _ in range(nmoves)]
+        uc = [rng.randrange(J.Nocc) for _ in range(nmoves)]
+        hint = []
+        for _ in range(3):
+            a = int(J.unoccupied_set[rng.randrange(J.Nunocc)]); c = int(J.occupied_set[rng.randrange(J.Nocc)])
+            hint.append(float(J.deltaE_trial(a, c)))
+        kt = _thresholds(rng, nmoves, hint)
     J2 = J.copy()
     before = dict(occ=[int(x) for x in J.occ], occupied_set=[int(x) for x in J.occupied_set[:J.Nocc]],
                   unoccupied_set=[int(x) for x in J.unoccupied_set[:J.Nunocc]])
@@ -432,25 +436,25 @@ def run(ctx):
     tiny = list(TINY)
     rng.shuffle(tiny)
     tiny.sort(key=lambda s: s[2] not in ('jumps', 'vac'))
-    done, nexh = 0, (4 if ctx.quick else len(tiny))
+    done, nexh = 0, (3 if ctx.quick else len(tiny))
     for spec in tiny:
         if done >= nexh: break
         b = c33._build(ctx, spec, rng)
         if b is None or b.nsites > 6: continue
         nfree = b.nsites - (1 if b.vacancy >= 0 else 0)
-        exhaustive(ctx, rec, b, rng, depth2=(not ctx.quick and nfree <= 4))
+        exhaustive(ctx, rec, b, rng, depth2=(not ctx.quick and nfree <= 5))
         ctx.count('exhaustive-samplers'); done += 1
     # (2) random histories
     large = list(LARGE) + list(TINY)
     rng.shuffle(large)
-    nhist = 12 if ctx.quick else 70
+    nhist = 10 if ctx.quick else 220
     for t in range(nhist):
-        if ctx.budget_left() < (50 if ctx.quick else 300):
+        if t >= 3 and ctx.budget_left() < (70 if ctx.quick else 500):
             ctx.count('skipped:budget'); break
         b = c33._build(ctx, large[t % len(large)], rng)
         if b is None: continue
         nint = len(b.values)
-        length = (60 if nint > 3000 else 150) if ctx.quick else (400 if nint > 3000 else 1500)
+        length = (50 if nint > 3000 else 130) if ctx.quick else (500 if nint > 3000 else 2000)
         random_history(ctx, rec, b, rng, length)
     if STATE['jit_transitions_broken']:
         ctx.note('MonteCarloSampler_jit.transitions() raises %s: compiled transition queries were skipped after the first '
@@ -459,13 +463,40 @@ def run(ctx):
     t0 = _t.time(); rec.compare(); ctx.note('python part %.1fs, lean driver %.1fs, %d lines' % (t0 - ctx.t0, _t.time() - t0, len(rec.lines)))
 
 
+def replay(ctx, data):
+    """./check C35 quick --replay replays/C35_….json : rebuild both samplers, re-run the history with the oracles"""
+    r = data['replay']
+    b = mc.rebuild(r['build'])
+    p = Pair(b)
+    rec, hist = c33._Null(), []
+    STATE['jit_transitions_broken'] = None
+    if r.get('history_length', 0) > len(r.get('history', [])):
+        print('note: the stored history is the tail of a longer one (%d ops); the tail is replayed from its first start' % r['history_length'])
+    for op in r.get('history', []):
+        k = op[0]
+        if k == 'start': op_start(ctx, rec, p, hist, op[1], op[2] if len(op) > 2 else 'param')
+        elif k.startswith('param of an unstarted'): op_param_unstarted(ctx, rec, p, hist)
+        elif p.J is None or p.MC.occ is None: continue
+        elif k == 'update': op_move(ctx, rec, p, hist, op[1], op[2])
+        elif k == 'trial':
+            print('deltaE_trial(%d,%d): reference %s compiled %s' % (op[1], op[2], p.MC.deltaE_trial((op[1],), (op[2],)), p.J.deltaE_trial(op[1], op[2])))
+            if float(p.MC.deltaE_trial((op[1],), (op[2],))) != float(p.J.deltaE_trial(op[1], op[2])):
+                _viol(ctx, p, 'deltaE-differs', 'compiled deltaE_trial differs from the reference', hist + [op])
+        elif k == 'MCmoves': op_mc(ctx, rec, p, hist, ctx.rng, len(op[1]), given=(op[1], op[2], [float(Fraction(x)) for x in op[3]]))
+        elif k == 'trans': op_trans(ctx, rec, p, hist)
+        print('%-70s %s' % (str(op)[:70], 'VIOLATION' if ctx.violations else 'ok'))
+        if ctx.violations: break
+    for v in ctx.violations[:3]:
+        print('VIOLATION reproduced: %s — %s\n  %s' % (v['sig'], v['what'], {k: w for k, w in v['replay'].items() if k not in ('build', 'history')}))
+    if not ctx.violations: print('no violation on replay')
+    return 1 if ctx.violations else 0
+
+
 def search(ctx, reasons):
     """failing-input search with the direct oracles only"""
     rng = ctx.rng
 
-    class Null:
-        def add(self, *a, **k): pass
-    rec = Null()
+    rec = c33._Null()
     for spec in TINY + LARGE:
         if ctx.violations or ctx.budget_left() < 10: break
         b = c33._build(ctx, spec, rng)
